@@ -29,7 +29,8 @@ REQUIRED_OBS = ["sends_between_segments", "segmentations_ok", "cuts_inside_heade
                 "subscribed_while_a_frame_was_incomplete",
                 "log_level_changed_between_segments",
                 "subscribed_from_the_connected_notification",
-                "subscriber_edits_the_messages_in_place"]
+                "subscriber_edits_the_messages_in_place",
+                "sibling_subscriber_failing_meanwhile"]
 SOAK = True   # also judged by the whole-run monitors of the soak sessions (vf/soak.py)
 BUDGET = {"quick": 100, "thorough": 1500}
 
